@@ -11,8 +11,8 @@ EXTENDS SyncProps, Shapes, TraceKit
 
 CONSTANT Want      \* names of the invariants this check evaluates
 
-VARIABLES l, fails, drift, inshape, done
-tvars == <<l, fails, drift, inshape, done>>
+VARIABLES l, fails, drift, inshape, depdrift, done
+tvars == <<l, fails, drift, inshape, depdrift, done>>
 
 PlanOf(o) == [anc |-> o.anc, alpha |-> Rng(o.alpha), beta |-> Rng(o.beta),
               conf |-> {[root |-> k.root, ac |-> Rng(k.ac), bc |-> Rng(k.bc)] : k \in Rng(o.conf)}]
@@ -81,16 +81,24 @@ Drifts(r) == IF "Conforms" \in Want /\ r.ev = "Cycle"
              THEN (IF r.nprop = PropExec(r.in.anc, r.in.p, r.in.n) THEN 0 ELSE 1)
              ELSE 0
 
-TInit == l = 1 /\ fails = <<>> /\ drift = 0 /\ inshape = 0 /\ done = FALSE
+\* conformance of TransitionDependencies (what the controller asks the endpoints to stage)
+DepDrifts(r) == IF "Conforms" \in Want /\ r.ev = "Cycle" /\ Has(r, "deps")
+                THEN (IF /\ Rng(r.deps.alpha) = Deps(Rng(r.plan.alpha)) /\ Len(r.deps.alpha) = Cardinality(Rng(r.deps.alpha))
+                         /\ Rng(r.deps.beta) = Deps(Rng(r.plan.beta)) /\ Len(r.deps.beta) = Cardinality(Rng(r.deps.beta))
+                      THEN 0 ELSE 1)
+                ELSE 0
+
+TInit == l = 1 /\ fails = <<>> /\ drift = 0 /\ inshape = 0 /\ depdrift = 0 /\ done = FALSE
 Step == /\ l <= NRec
         /\ LET r == Trace[l] IN
            /\ fails' = Cap(fails \o RecFails(l, r) \o (IF InShape(r) THEN <<>> ELSE <<Fail(l, "DriverInShape")>>))
            /\ drift' = drift + Drifts(r)
+           /\ depdrift' = depdrift + DepDrifts(r)
            /\ inshape' = inshape + (IF r.shape # "rand" THEN 1 ELSE 0)
         /\ l' = l + 1 /\ UNCHANGED done
 Finish == /\ l = NRec + 1 /\ ~done
-          /\ WriteResult(l - 1, fails, [stat_drift |-> drift, stat_inshape |-> inshape])
-          /\ done' = TRUE /\ UNCHANGED <<l, fails, drift, inshape>>
+          /\ WriteResult(l - 1, fails, [stat_drift |-> drift, stat_inshape |-> inshape, stat_deps_drift |-> depdrift])
+          /\ done' = TRUE /\ UNCHANGED <<l, fails, drift, inshape, depdrift>>
 TNext == Step \/ Finish
 TSpec == TInit /\ [][TNext]_tvars
 ====
